@@ -26,6 +26,8 @@ def drv_cfg(c, **kw):
 
 
 def build():
+    if os.environ.get("EVB_DRV_OVERRIDE"):      # mutation experiments: a driver linked with a modified buffer.c
+        return os.environ["EVB_DRV_OVERRIDE"]
     return vkit.cc("evbuffer_drv", ["evbuffer_drv.c"], vclock=True,
                    extra=["-Wl,--wrap=readv,--wrap=writev,--wrap=sendfile,--wrap=read,--wrap=write"])
 
